@@ -725,7 +725,17 @@ def run_jobs(ctx, units, jobs, rep, tag="vec"):
     jobs_p = os.path.join(ctx.tmp, "jobs.ndjson")
     write_ndjson(descs_p, [u.desc for u in units])
     write_ndjson(jobs_p, jobs)
-    lines, stats = tlc("MC_Vectors", "MC_Vectors.cfg", dict(DESCS=descs_p, JOBS=jobs_p), tag=tag)
+    try:
+        lines, stats = tlc("MC_Vectors", "MC_Vectors.cfg", dict(DESCS=descs_p, JOBS=jobs_p), tag=tag)
+    except ToolError as e:
+        # a model-level invariant failed (the specification is incoherent on some description): say on which one
+        import re
+        m = re.search(r"job = (\d+)", str(e))
+        if m and 1 <= int(m.group(1)) <= len(jobs):
+            j = jobs[int(m.group(1)) - 1]
+            u = units[j["d"] - 1]
+            raise ToolError("%s\n--- job %s on description %s:\n%s" % (str(e)[:5000], json.dumps(j), u.name, u.src))
+        raise
     rep.tlc_stats(stats)
     vecs = parse_tagged(lines, "VEC")
     info = {}
